@@ -364,6 +364,12 @@ class StackLen:
                 if op.endswith("WithOverflow"):
                     return Agg("tuple", None, [a - b if a >= b else 0, a < b])
                 return a - b
+        if isinstance(other, StackLen) and other.st is not self.st and (op in ("Lt", "Le", "Gt", "Ge", "Eq", "Ne") or base == "Sub"):
+            # lengths of two different abstract stacks (e.g. a depth remembered before a stubbed callee rewrote the stack): both
+            # are materialised
+            a = self.st.exact_len(I) + self.off
+            b = other.st.exact_len(I) + other.off
+            return I.binop(op, b, a, ty) if swapped else I.binop(op, a, b, ty)
         if isinstance(other, int) and not isinstance(other, bool):
             if base in ("Add", "Sub"):
                 if swapped and base == "Sub":
@@ -1318,6 +1324,34 @@ class Ctx:
     def opcode_value(self, name):
         return self.prog.enum_value(self.opcode_adt, name)
 
+    def inner_bypass_note(self):
+        """for the report on a new (derived-state) field of Stack: the places outside `impl Stack` that take `stack.inner` mutably,
+        i.e. that change the stack without going through the methods that could keep such a field consistent"""
+        try:
+            sites = []
+            for k, b in self.prog.bodies.items():
+                if "stack::" in k.split("<")[0] or "impl stack::Stack" in k:
+                    continue
+                for blk in b["blocks"]:
+                    if blk.get("cleanup"):
+                        continue
+                    for st in blk["s"]:
+                        rv = st.get("rv") or {}
+                        pls = []
+                        if st.get("k") == "assign" and rv.get("k") in ("ref", "rawptr") and rv.get("bk") == "mut":
+                            pls.append(rv.get("pl") or {})
+                        if st.get("k") == "assign":
+                            pls.append(st.get("pl") or {})
+                        for pl in pls:
+                            if any(isinstance(x, dict) and x.get("n") == "inner" for x in pl.get("p", [])):
+                                sites.append("%s line %s" % (k.split("::")[-1], st.get("ln")))
+            sites = sorted(set(sites))
+            if sites:
+                return ("; whatever keeps it consistent, these sites mutate `stack.inner` directly and bypass the methods of Stack: " + ", ".join(sites[:6]))[:400]
+        except Exception:
+            pass
+        return ""
+
     def make_generator(self, depth_bound=7, version=None, flags=None, memo_classes=MEMO_CLASSES, mutators=None, defaults=None):
         """abstract Generator value with every field bound to a special object; unknown new
         fields are a hard error (a new field needs a role before anything can be proved)."""
@@ -1333,7 +1367,7 @@ class Ctx:
             if n == "inner":
                 stack_fields.append(st)
             else:
-                raise Unanalysable("unknown field Stack.%s (no role)" % n)
+                raise Unanalysable("unknown field Stack.%s (no role)%s" % (n, self.inner_bypass_note()))
         state_fields = []
         extra_scratch = {}
         extra_leaves = {}
